@@ -45,10 +45,11 @@ def parseCtx (a : List Int) : Option (Ctx × List Int) := do
   | _ => none
 
 /-- the transaction of a `wd.startliq` line: one code per instruction (0 start_liquidation, 1 end_liquidation, 2 withdraw,
-    3 repay, anything else: another marginfi instruction) -/
+    3 repay, 5 start_deleverage, 6 end_deleverage, anything else: another marginfi instruction) -/
 def txOfCodes (codes : List Int) : List TOp :=
   codes.map fun k =>
     if k == 0 then TOp.startLiq 0 0 true else if k == 1 then TOp.endLiq 0 0 true true 0
+    else if k == 5 then TOp.startDelev 0 0 true else if k == 6 then TOp.endDelev 0 0 true
     else if k == 2 then TOp.ix (.withdraw 0 0 0 0 false 0) else if k == 3 then TOp.ix (.repay 0 0 0 0 false)
     else TOp.ix (.accrue 0)
 
@@ -75,6 +76,32 @@ def worldRecvOp (op : String) (a : List Int) : Option String :=
         let acct : AcctV := { c.a with recReceiver := recReceiver.toNat, recCache := { aMaint := am, lMaint := lm, aEq := ae, lEq := le } }
         let rc : RCtx := { now := c.now, g := c.g, a := acct, recordOk := s2b recordOk, receiver := c.signer, walletOk := s2b walletOk, feeMax, risk := c.risk }
         some (showResB ((World.endLiquidation rc 1).map fun o => s!"{o.flags}"))
+      | _ => none
+  some (r.getD "bad-args")
+
+/-- `wd.startdelev <context> recordOk n code_1 … code_n cur` (the context's signer is the account passed as risk_admin) →
+    `ok <flags> <receiver> <cache x4>`;  `wd.enddelev <context> recordOk recReceiver aMaint lMaint aEq lEq` → `ok <flags>` -/
+def worldDelevOp (op : String) (a : List Int) : Option String :=
+  if op != "wd.startdelev" && op != "wd.enddelev" then none else
+  let r : Option String := do
+    let (c, rest) ← parseCtx a
+    if op == "wd.startdelev" then
+      match rest with
+      | recordOk :: n :: rest =>
+        let codes := rest.take n.toNat
+        match rest.drop n.toNat with
+        | [cur] =>
+          let rc : RCtx := { now := c.now, g := c.g, a := c.a, recordOk := s2b recordOk, receiver := c.signer, walletOk := true, feeMax := 0, risk := c.risk }
+          some (showResB ((World.startDeleverage rc (World.delevShape (txOfCodes codes) cur.toNat)).map fun o =>
+            s!"{o.flags} {o.receiver} {o.cache.aMaint} {o.cache.lMaint} {o.cache.aEq} {o.cache.lEq}"))
+        | _ => none
+      | _ => none
+    else
+      match rest with
+      | [recordOk, recReceiver, am, lm, ae, le] =>
+        let acct : AcctV := { c.a with recReceiver := recReceiver.toNat, recCache := { aMaint := am, lMaint := lm, aEq := ae, lEq := le } }
+        let rc : RCtx := { now := c.now, g := c.g, a := acct, recordOk := s2b recordOk, receiver := c.signer, walletOk := true, feeMax := 0, risk := c.risk }
+        some (showResB ((World.endDeleverage rc 1).map fun o => s!"{o.flags}"))
       | _ => none
   some (r.getD "bad-args")
 
